@@ -1,5 +1,5 @@
-// Counterexample found by mirsym/z3 for property C20, template pair_nested_pair: |x, y, z| { z == (y, p0), q == (x, z), x == p1, y == [x] } with parameters [0, 0]: an answer (term or reported constraint) mentions the program variable(s) ['y'] instead of reified `_` variables
-// Replay: /verif/check C20 --replay /verif/replay/cases/C20-pair_nested_pair_unreified_variable.rs
+// Counterexample found by mirsym/z3 for property C20, template cs_fd_fields: |x, y| { q == Pt(x, Leaf(y)), infdrange([x, y], &(0..=2)), ltfd(x, y) } with parameters []: reference answer 1 is missing from the engine's answers (expected answers ['Pt(0, Leaf(1))', 'Pt(0, Leaf(2))', 'Pt(1, Leaf(2))'], engine answers ['Pt(0, Leaf(1))'])
+// Replay: /verif/check C20 --replay /verif/replay/cases/C20-cs_fd_fields_answers.rs
 #![allow(unused_imports, unused_variables, unused_mut)]
 use proto_vulcan::prelude::*;
 use proto_vulcan::lterm::LTerm;
@@ -48,6 +48,18 @@ pub fn twice(g: Goal<TU, TE>) -> Goal<TU, TE> {
     let g2 = g.clone();
     proto_vulcan!([g, g2])
 }
+#[compound]
+struct Leaf(LTerm);
+#[compound]
+struct Wrap(LTerm);
+#[compound]
+struct Pt(LTerm, LTerm);
+#[compound]
+struct Node(LTerm, Option<Leaf>);
+#[compound]
+struct Named { a: LTerm, b: Leaf }
+#[compound]
+struct Tree(LTerm, Tree, Tree);
 
 const LIMIT: usize = 64;
 
@@ -64,15 +76,14 @@ fn replay() {
 }
 
 fn body() {
-    let p0: T = LTerm::from(0);
-    let p1: T = LTerm::from(0);
     let query = proto_vulcan_query!(|q| {
-        |x, y, z| { z == (y, p0), q == (x, z), x == p1, y == [x] }
+        |x, y| { q == Pt(x, Leaf(y)), infdrange([x, y], &(0..=2)), ltfd(x, y) }
     });
-    for r in query.run().take(LIMIT) {
-        let s = format!("{}", r.q);
-        for tok in s.split(|c: char| !(c.is_alphanumeric() || c == '_')) {
-            assert!(!["y"].contains(&tok), "answer `{}` mentions the program variable {}", s, tok);
-        }
-    }
+    let re = |s: String| { let mut o = String::new(); let mut it = s.chars().peekable();
+        while let Some(c) = it.next() { o.push(c); if c == '_' { if it.peek() == Some(&'.') { it.next(); while it.peek().map_or(false, |d| d.is_ascii_digit()) { it.next(); } } } } o };
+    let mut got: Vec<String> = query.run().take(LIMIT).map(|r| re(format!("{}", *r.q))).collect();
+    let mut expected: Vec<String> = vec!["Pt(0, Leaf(1))".to_string(), "Pt(0, Leaf(2))".to_string(), "Pt(1, Leaf(2))".to_string()];
+    got.sort();
+    expected.sort();
+    assert_eq!(got, expected);
 }
